@@ -180,16 +180,22 @@ func validateMXIDMappingSignatures(ctx context.Context, e PDU, mapping MXIDMappi
 		return err
 	}
 
-	var toVerify []VerifyJSONRequest
-	for s := range mapping.Signatures {
-		v := VerifyJSONRequest{
-			Message:              mappingBytes,
-			AtTS:                 e.OriginServerTS(),
-			ServerName:           s,
-			ValidityCheckingFunc: verImpl.SignatureValidityCheck,
-		}
-		toVerify = append(toVerify, v)
+	// The mapping ties the room key to a user, so it is that user's server which
+	// has to vouch for it: a mapping without its signature proves nothing, and the
+	// signatures of other servers do not matter.
+	_, userDomain, err := SplitID('@', mapping.UserID)
+	if err != nil {
+		return fmt.Errorf("invalid user ID in MXIDMapping: %w", err)
 	}
+	if _, signed := mapping.Signatures[userDomain]; !signed {
+		return fmt.Errorf("MXIDMapping is not signed by %q", userDomain)
+	}
+	toVerify := []VerifyJSONRequest{{
+		Message:              mappingBytes,
+		AtTS:                 e.OriginServerTS(),
+		ServerName:           userDomain,
+		ValidityCheckingFunc: verImpl.SignatureValidityCheck,
+	}}
 
 	// check that the mapping is correctly signed by the server
 	results, err := verifier.VerifyJSONs(ctx, toVerify)
